@@ -118,6 +118,10 @@ func ChanTrySend(p *Chan, v unsafe.Pointer, eltSize int) bool {
 }
 
 func ChanSend(p *Chan, v unsafe.Pointer, eltSize int) bool {
+	if p == nil {
+		// A send on a nil channel blocks forever.
+		Select()
+	}
 	n := p.cap
 	p.mutex.Lock()
 	if n == 0 {
@@ -207,6 +211,10 @@ func chanTryRecv(p *Chan, v unsafe.Pointer, eltSize int, acceptSelectSend bool) 
 }
 
 func ChanRecv(p *Chan, v unsafe.Pointer, eltSize int) (recvOK bool) {
+	if p == nil {
+		// A receive from a nil channel blocks forever.
+		Select()
+	}
 	n := p.cap
 	p.mutex.Lock()
 	if n == 0 {
